@@ -15,7 +15,7 @@ fn assemble(frags: &J, decos: &J) -> String {
 
 fn name_program(name: &str) -> String {
     format!(
-        "{n} = 5\n[{n}, {n} + 1, max({n}, 1), {{k: {n}}}.k, [1, 2, 3, 4, 5, 6][{n}], if {n} == 5 then {n} else 0, (x => {n} + x)(1), {n} * 2, -{n}, {n}!, [{n}] via (y => y + {n}), {{{n}}}[\"{n}\"], do {{\n  t = {n}\n  return t + {n}\n}}, ({n}), {n}>4, {n}==5, [...[{n}]], 2^{n}, {n} ?? 1]",
+        "{n} = 5\n[{n}, {n} + 1, max({n}, 1), {{k: {n}}}.k, [1, 2, 3, 4, 5, 6][{n}], if {n} == 5 then {n} else 0, (x => {n} + x)(1), {n} * 2, -{n}, {n}!, [{n}] via (y => y + {n}), {{{n}}}[\"{n}\"], do {{\n  t = {n}\n  return t + {n}\n}}, ({n}), {n}>4, {n}==5, [...[{n}]], 2^{n}, {n} ?? 1, (({n}) => (() => {n} + 1))(7)(), (do {{\n  {n} = 2\n  return w => w * {n}\n}})(10), to_string(v => v + {n})]",
         n = name
     )
 }
@@ -71,6 +71,24 @@ pub fn replay(case: &J) -> J {
             let (p2, r2) = run(case["word"].as_str().unwrap());
             evals += 2;
             if r1 != r2 { mism.push(json!({"src": p1, "other": p2, "exp": r2, "obs": r1})); }
+            // the spelling survives being shown: the text to_string gives for a function that contains the operator is a
+            // function again and behaves like the original, for the symbol and for the word
+            for op in [case["sym"].as_str().unwrap(), case["word"].as_str().unwrap()] {
+                let s = Session::new();
+                let body = if a.is_empty() { format!("{op}{b}") } else { format!("{a} {op} {b}") };
+                let prog = format!("f = (p, q, z) => {body}\nto_string(f)\nf(true, false, null)");
+                let r = s.run(&prog, false);
+                evals += 1;
+                if r.len() != 3 { continue; }
+                let orig = describe(&r[2], &s);
+                if let Outcome::Ok(v) = &r[1] {
+                    let text = match mv::concrete_of_value(v, &s.heap.borrow()) { J::String(t) => t, other => other["s"].as_str().unwrap_or("").to_string() };
+                    let s2 = Session::new();
+                    let r2 = s2.run(&format!("g = {text}\ng(true, false, null)"), false);
+                    let again = r2.last().map(|o| describe(o, &s2)).unwrap_or(json!("nothing"));
+                    if r2.len() != 2 || again != orig { mism.push(json!({"src": prog, "other": format!("g = {text} ; g(true, false, null)"), "exp": orig, "obs": again})); }
+                }
+            }
         }
         "name" => {
             let name = case["name"].as_str().unwrap();
